@@ -395,7 +395,7 @@ func drawSpec(tp *tape.Tape, idx int, render, thorough bool, first bool) Spec {
 		if tp.Chance(1, 10, "spec.elk") {
 			sp.Layout = "elk"
 		}
-		sp.Sketch = tp.Chance(1, 5, "spec.sketch")
+		sp.Sketch = tp.Chance(1, 3, "spec.sketch")
 		themes := []int64{0, 1, 3, 4, 5, 6, 8, 100, 101, 200, 300, 301}
 		if tp.Chance(1, 3, "spec.theme") {
 			sp.Theme = themes[tp.Draw(len(themes), "spec.themeid")]
